@@ -62,7 +62,16 @@ fn gen_nonnull(rng: &mut Rng, ty: Ty) -> Val {
 
 fn gen_data(rng: &mut Rng, ty: Ty, len: usize) -> Vec<Val> {
     let null_pct = *rng.pick(&[0usize, 0, 10, 30, 60, 100]);
-    (0..len).map(|i| if ty == Ty::Trk { Val::I(i as i64) } else { gen_val(rng, ty, null_pct) }).collect()
+    (0..len)
+        .map(|i| {
+            if ty == Ty::Trk {
+                // origin -1 is the null of tracked items
+                if rng.chance(null_pct, 200) { Val::Null } else { Val::I(i as i64) }
+            } else {
+                gen_val(rng, ty, null_pct)
+            }
+        })
+        .collect()
 }
 
 fn gen_lag(rng: &mut Rng, rem: usize, extreme: bool) -> i32 {
@@ -199,6 +208,8 @@ struct Cursor {
     de: bool,
     res: bool,
     plain: bool,
+    /// the stream may hold Err items
+    may_err: bool,
     rem: usize,
     depth: usize,
 }
@@ -221,12 +232,20 @@ fn gen_stage(rng: &mut Rng, cur: &Cursor, sw: &Swarm, cfg: &GenCfg) -> Option<St
         });
     }
     if cur.ty == Ty::Trk {
-        return Some(match rng.below(7) {
+        let tv = |rng: &mut Rng| -> Val { if rng.chance(1, 5) { Val::Null } else { Val::I(1000 + rng.below(10) as i64) } };
+        return Some(match rng.below(12) {
             0 => Stage::MapId,
             1 if cur.de => Stage::Rev,
             4 => Stage::StepBy { k: 1 + rng.below(3) },
             5 => Stage::Scan,
             6 => Stage::ToTrust,
+            7 => Stage::VShift {
+                n: gen_lag(rng, cur.rem, false),
+                fill: if rng.chance(1, 2) { None } else { Some(tv(rng)) },
+            },
+            8 => Stage::FFill { fill: if rng.chance(1, 2) { None } else { Some(tv(rng)) } },
+            9 if cur.de => Stage::BFill { fill: if rng.chance(1, 2) { None } else { Some(tv(rng)) } },
+            10 => Stage::Fill { v: tv(rng) },
             2 => Stage::Shift { n: gen_lag(rng, cur.rem, false), v: Val::I(1000 + rng.below(10) as i64) },
             _ => Stage::Take { k: gen_k(rng, cur.rem) },
         });
@@ -334,6 +353,7 @@ fn apply_model(cur: &mut Cursor, st: &Stage) {
         },
         Stage::VCut { .. } => {
             cur.res = true;
+            cur.may_err = true;
             cur.de = false;
         },
         _ => cur.de = false,
@@ -342,11 +362,12 @@ fn apply_model(cur: &mut Cursor, st: &Stage) {
 
 fn gen_container(rng: &mut Rng, cfg: &GenCfg, ty: Ty) -> Container {
     let polars_ok = cfg.polars && matches!(ty, Ty::OptF64 | Ty::OptI32);
-    match rng.below(if polars_ok { 6 } else { 5 }) {
+    match rng.below(if polars_ok { 7 } else { 6 }) {
         0 | 1 => Container::Vec,
         2 => Container::Deque,
         3 => Container::Array1,
         4 => Container::Sim,
+        5 => Container::Plain,
         _ => Container::Polars,
     }
 }
@@ -364,8 +385,9 @@ fn gen_buf_len(rng: &mut Rng, m: usize) -> usize {
 
 fn gen_sink(rng: &mut Rng, cfg: &GenCfg, cur: &Cursor) -> Sink {
     if cur.plain {
-        let c = *rng.pick(&[Container::Vec, Container::Deque, Container::Array1, Container::Sim]);
+        let c = *rng.pick(&[Container::Vec, Container::Deque, Container::Array1, Container::Sim, Container::Plain]);
         if cur.res {
+            let c = if c == Container::Plain && cur.may_err { Container::Vec } else { c };
             return if cur.ty == Ty::Trk { Sink::TryPlain(Container::Vec) } else { Sink::TryPlain(c) };
         }
         return match rng.below(3) {
@@ -378,10 +400,15 @@ fn gen_sink(rng: &mut Rng, cfg: &GenCfg, cur: &Cursor) -> Sink {
         if cur.ty == Ty::Trk {
             return Sink::TryTrustedToVec;
         }
+        let c = match gen_container(rng, cfg, cur.ty) {
+            // the inherited default of the fallible collectors unwraps (documented fallback)
+            Container::Plain if cur.may_err => Container::Vec,
+            c => c,
+        };
         return match rng.below(5) {
             0 | 1 => Sink::TryTrustedToVec,
-            2 | 3 => Sink::TryTrusted(gen_container(rng, cfg, cur.ty)),
-            _ => Sink::TryPlain(gen_container(rng, cfg, cur.ty)),
+            2 | 3 => Sink::TryTrusted(c),
+            _ => Sink::TryPlain(c),
         };
     }
     let c = {
@@ -461,6 +488,7 @@ pub fn gen_pipe(rng: &mut Rng, cfg: &GenCfg) -> Pipe {
         de: root.double_ended(),
         res: fallible,
         plain: false,
+        may_err: !errs.is_empty(),
         rem: model_len_after_view(&root, len),
         depth: 1,
     };
